@@ -467,7 +467,9 @@ def run(ctx):
                 # same when it cannot tell the entry's device): the entry is reported, as an error
                 instead = [c for c in vis if c not in dent_visits and c.dest is not None and c.dest["l"] == 0 and not c.dest["p"] and
                            any(x.k == "agg" and x[2] == "Err" for x in walk(ebr.operand(c.args[1]))) and
-                           any(is_call(x, W + "::is_same_file_system") for x in walk(ebr.operand(c.args[1])))]
+                           any(is_call(x, W + "::is_same_file_system") or
+                               (x.k == "closure" and x[1] in facts.fns and facts.fns[x[1]].calls_to(W + "::is_same_file_system"))
+                               for x in walk(ebr.operand(c.args[1])))]
                 esc = C.all_paths_pass(ro, [0], {c.bb for c in dent_visits} | {c.bb for c in instead}, ro.return_blocks(),
                                        removed_edges={te for _, te, fe, _ in qs})
                 if esc:
